@@ -106,7 +106,8 @@ def main():
             dst = os.path.join(wt, d, os.path.basename(t))
             shutil.copy(t, dst)
             names = re.findall(r"^func (Test\w+)\(", src, re.M)
-            placed.append((d, dst, names))
+            if names:  # helper files without test functions are only copied
+                placed.append((d, dst, names))
         def run_demos():
             outs = []
             allpass = True
